@@ -288,4 +288,4 @@ def case_strategy():
 def run(ctx):
     global CTX
     CTX = ctx
-    run_cases(ctx, case_strategy(), guarded(ctx, check_case), ctx.budget(1600, 60000))
+    run_cases(ctx, case_strategy(), guarded(ctx, check_case), ctx.budget(1600, 12800))
